@@ -140,5 +140,23 @@ PROPS = {
         "explanation": "Lean theorems: every component is under a later challenge (C04) or has a unique accepting value at fixed challenges (r1, s1, d1_k, A, A1, B, promises) or is shape-checked. Oracle (the property itself, exhaustive over positions): every single alteration of an accepted triple returns an error value, never Ok, never a panic, on the free module and on Ristretto, alone and as a batch member.",
         "assumptions": COMMON_ASSUME + ["that a changed challenge makes the equation fail is the random-oracle step"],
     },
+    "C13": {
+        "level": "proof",
+        "theorems": T("C13_schedule_inj", "C13_r_s_from_rng", "C13_key_inj", "C13_nonzero"),
+        "leancheck": ["Bpp.NonceThm"],
+        "scenarios": [{"name": "C13"}],
+        "rule": "lattice x {seeded, unseeded} x prover RNG kinds; every nonce position read from the proof's coordinates over the free module; distinct = (bits, aggregation, degree, seeded)",
+        "explanation": "Partial by nature: zero-knowledge itself is not proved. Lean theorems: the nonce schedule is injective (no draw or seed-derived value feeds two positions; r, s always from the RNG), the seed-key layout is injective, rejection sampling never returns 0. Tie: seed-derived nonces = Blake2b-MAC (independent implementation) of the model-emitted key/persona; RNG-derived nonces match logged transcript-RNG outputs injectively (exact draw index diagnostic only). Oracle: all nonces non-zero and pairwise distinct; runs with different randomness share none (unseeded) / exactly the seed-derived ones (seeded).",
+        "assumptions": ["independence/unpredictability of distinct draws is the PRF/RO property of STROBE and Blake2b (outside the proof)", "nonces are observable only over the free-module group; Ristretto runs the same generic code"],
+    },
+    "C14": {
+        "level": "proof",
+        "theorems": T("C14_rng_input_inj", "C04_data_final", "C13_schedule_inj"),
+        "leancheck": ["Bpp.NonceThm"],
+        "scenarios": [{"name": "C14"}],
+        "rule": "RNG-construction relation on the lattice + fault models {all-zero, constant, period-2, replayed} x pairs of runs differing in exactly one of context, promise, blinding vector (same commitment), value (same commitment); distinct = (bits, aggregation, degree) + (fault, bits)",
+        "explanation": "Partial: that STROBE keyed with the witness is a PRF is outside the proof. Lean theorems: every RNG instance's construction input determines the forked history, the witness bytes and the external bytes (so differing runs have differing inputs whatever the external RNG returns). Tie: logged build_rng/rekey/finalize events = model (witness serialisation byte for byte, forked histories equal the model's prefixes, one rebuild per transcript update, draws from the latest instance). Oracle (fault injection): under each faulty external RNG, identical runs are reproducible and runs differing in one datum share no RNG output.",
+        "assumptions": ["STROBE keyed with the witness bytes is a PRF (outside the proof)", "degenerate Pedersen generators built through the public fields are used only to obtain two witnesses of one commitment"],
+    },
 }
 NOT_CLAIMED = {}
